@@ -353,15 +353,23 @@ def check_gridfunctions(desc):
     n = sp.global_dof_count
     rng = np.random.default_rng(desc["seed"])
 
-    def leaf(rep, cplx):
+    alt_duals = {"p": ["p", "q"], "d": ["d", "q"], "q": ["q"]}[desc["space"]]
+
+    def leaf(rep, cplx, alt=False):
         c = rng.standard_normal(n) + (1j * rng.standard_normal(n) if cplx else 0)
+        dk = desc["dual"]
+        if alt:
+            # a function of the same space given through projections onto a *different* dual space
+            others = [a for a in alt_duals if a != dk]
+            dk = others[0] if others else dk
+        dl, Ml = P["S"][dk], P["M"][(desc["space"], dk)]
         if rep == "primal":
-            return bempp_cl.api.GridFunction(sp, coefficients=c, dual_space=dual), c
-        return bempp_cl.api.GridFunction(sp, projections=M @ c, dual_space=dual), c
+            return bempp_cl.api.GridFunction(sp, coefficients=c, dual_space=dl), c
+        return bempp_cl.api.GridFunction(sp, projections=Ml @ c, dual_space=dl), c
 
     def build(t):
         if t[0] == "leaf":
-            return leaf(t[1], t[2])
+            return leaf(t[1], t[2], bool(t[3]) if len(t) > 3 else False)
         if t[0] == "scal":
             a = _SCALARS[t[1]]
             g, c = build(t[2])
@@ -395,7 +403,15 @@ def check_gridfunctions(desc):
     pr = g.projections(dual)
     if np.max(np.abs(pr - M @ c)) > gtol * scale * max(1.0, float(np.max(np.abs(M)))) * 10:
         _fail("gridfunction/projections", f"{desc['tree']}: projections deviate by {np.max(np.abs(pr - M @ c)):.2e}")
-    return {"nontrivial": desc["tree"][0] != "leaf", "labels": ["gridfunction_tree", "mixed_rep" if "dual" in str(desc["tree"]) and "primal" in str(desc["tree"]) else "single_rep"]}
+    labels = ["gridfunction_tree", "mixed_rep" if "dual" in str(desc["tree"]) and "primal" in str(desc["tree"]) else "single_rep"]
+    def _mixed(t):
+        if t[0] in ("add", "sub") and t[1][0] == "leaf" and t[2][0] == "leaf":
+            if t[1][1] == "dual" and t[2][1] == "dual" and bool(t[1][3] if len(t[1]) > 3 else False) != bool(t[2][3] if len(t[2]) > 3 else False):
+                return True
+        return any(_mixed(x) for x in t[1:] if isinstance(x, list) and x and isinstance(x[0], str) and x[0] != "leaf")
+    if len(alt_duals) > 1 and _mixed(desc["tree"]):
+        labels.append("sum_of_projections_onto_different_duals")
+    return {"nontrivial": desc["tree"][0] != "leaf", "labels": labels}
 
 
 def check_potentials(desc):
@@ -620,7 +636,7 @@ def strategy(spec):
             max_leaves=6)
         return st.fixed_dictionaries({"tree": tree})
     if c == "gridfunctions":
-        leaves = st.tuples(st.sampled_from(["primal", "dual"]), st.booleans()).map(lambda x: ["leaf", x[0], x[1]])
+        leaves = st.tuples(st.sampled_from(["primal", "dual", "dual"]), st.booleans(), st.sampled_from([False, False, True])).map(lambda x: ["leaf", x[0], x[1], x[2]])
         nz = st.sampled_from([k for k in sorted(_SCALARS) if k != "i0"])
         tree = st.recursive(
             leaves,
@@ -628,7 +644,9 @@ def strategy(spec):
                 st.tuples(scal, ch, st.sampled_from(["l", "r"])).map(lambda x: ["scal", x[0], x[1], x[2]]),
                 st.tuples(nz, ch).map(lambda x: ["div", x[0], x[1]]),
                 ch.map(lambda x: ["neg", x]), ch.map(lambda x: ["real", x]), ch.map(lambda x: ["imag", x]),
-                st.tuples(ch, ch).map(lambda x: ["add", x[0], x[1]]), st.tuples(ch, ch).map(lambda x: ["sub", x[0], x[1]])),
+                st.tuples(ch, ch).map(lambda x: ["add", x[0], x[1]]), st.tuples(ch, ch).map(lambda x: ["sub", x[0], x[1]]),
+                # sums of two leaves directly (both may still be in projection representation, possibly w.r.t. different dual spaces)
+                st.tuples(st.sampled_from(["add", "sub"]), leaves, leaves).map(lambda x: [x[0], x[1], x[2]])),
             max_leaves=5)
         return st.fixed_dictionaries({"tree": tree, "space": st.sampled_from(["p", "d", "q"]), "dual": st.sampled_from(["p", "d", "q"]),
                                       "seed": st.integers(0, 999)}).filter(lambda d: (d["space"], d["dual"]) not in (("p", "d"), ("d", "p"), ("q", "p"), ("q", "d")))
